@@ -180,6 +180,30 @@ fn synthetic_sources(ctx: &Ctx, dir: &Path) -> Vec<PathBuf> {
     }
     body.push_str(" ( do r <- ! f3 4 ; ! ( process / exit ) r : OS )\nend");
     write("bindings.zy", body);
+    // diagnostics that *list* things: their order must not come from a hash table
+    write(
+        "missing-destructors.zy",
+        "begin\n def Shape : CType = codata | .alpha : Ret Int64 | .beta : Ret Int64 | .gamma : Ret Int64 | .delta : Ret Int64 | .epsilon : Ret Int64 | .zeta : Ret Int64 | .eta : Ret Int64 end that\n def ! obj : Shape = comatch | .gamma => ret 1 end that\n def ! other : Shape = comatch | .eta => ret 1 | .alpha => ret 2 end that\n ( ! ( process / exit ) 0 : OS )\nend".into(),
+    );
+    write(
+        "overlapping-clauses.zy",
+        "begin\n def Shape : CType = codata | .alpha : Ret Int64 | .beta : Ret Int64 | .gamma : Ret Int64 | .delta : Ret Int64 end that\n def ! twice : Shape = comatch | .alpha => ret 1 | .beta => ret 1 | .gamma => ret 1 | .delta => ret 1 | .gamma => ret 2 | .beta => ret 2 | .delta => ret 2 | .alpha => ret 2 end that\n ( ! ( process / exit ) 0 : OS )\nend".into(),
+    );
+    // a recursive group of four type definitions, two of them ill-kinded: which one is blamed first?
+    write(
+        "recursive-group.zy",
+        "begin\n def North : VType = data | +Stop : Unit | +ToEast : East end that\n def East : VType = data | +ToSouth : South end that\n def South : VType = data | +ToWest : Ret West end that\n def West : VType = data | +ToNorth : Ret North end that\n def Up : VType = data | +U1 : Ret Down end that\n def Down : VType = data | +D1 : Ret Left end that\n def Left : VType = data | +L1 : Ret Up end that\n ( ! ( process / exit ) 0 : OS )\nend".into(),
+    );
+    // many names defined twice in one block
+    write(
+        "duplicates.zy",
+        "begin\n let aaa = 1 that\n let bbb = 2 that\n let ccc = 3 that\n let ddd = 4 that\n let eee = 5 that\n let ( aaa , bbb , ccc , ddd , eee ) = ( 1 , 2 , 3 , 4 , 5 ) that\n ( ! ( process / exit ) 0 : OS )\nend".into(),
+    );
+    // many unbound names and many unknown constructors
+    write(
+        "unbound.zy",
+        "begin\n let a = u1 that\n let b = u2 that\n let c = u3 that\n let d = u4 that\n let e = u5 that\n let f = u6 that\n ( ! ( process / exit ) 0 : OS )\nend".into(),
+    );
     // several type errors
     write("errors.zy", "begin\n let a : Int64 = \"s\" that\n let b : String = 5 that\n let c : Int8 = 300 that\n ( ! ( process / exit ) a : OS )\nend".into());
     // uses many host roles
